@@ -35,7 +35,7 @@ SPEC = dict(
     assumptions=["bvmon/ref_v1.py renders/reads the legacy parts from their documented composites",
                  "{iso_week}/{us_week} and the zero-padded {MM}/{PPP}/{BBB} families are outside the statement"],
     required=["roundtrips", "test_accepted", "chain_steps", "pycalver_string_order_checks", "updates_ok",
-              "dispatch_checked", "short_roundtrips", "legacy_pin_date_cases"],
+              "dispatch_checked", "short_roundtrips", "legacy_pin_date_cases", "follow_up_updates"],
     anchors=[("v1version", "parse_version_info"), ("v1version", "format_version"), ("v1version", "incr"),
              ("cli", "incr_dispatch"), ("v1patterns", "_compile_pattern_re")],
 )
@@ -318,6 +318,36 @@ def run_update(ctx, case, R):
         cur = sres.stdout_value("Current Version: ")
         if cur != new:
             ctx.violation("other:show_disagrees", f"{p!r}: show says {cur!r} after update to {new!r}", case=case)
+        # further updates on what the engine itself wrote (its own {pep440_version} text must be found again)
+        prev = new
+        for k in range(2):
+            date = date + dt.timedelta(R.choice([1, 31, 366]))
+            args2 = ["update", "--no-fetch"] + flags_for(R, p) + ["--date", date.isoformat()]
+            if ("semver" in p or "MAJOR" in p) and not any(a in args2 for a in ("--major", "--minor", "--patch")):
+                args2.append("--patch")
+            res2 = harness.invoke(args2, cwd=dpath)
+            ctx.counters["follow_up_updates"] += 1
+            if res2.exit_code != 0:
+                if res2.crash and not res2.crash.startswith("OverflowError"):
+                    ctx.violation(classify(p, "update_crash"), f"follow-up {args2}: {res2.crash[:300]}", case=case)
+                elif res2.record_value("New Version: ") is not None:
+                    ctx.violation("other:legacy_update_fails_in_rewrite_phase", f"follow-up {args2} on {p!r} after the "
+                                  f"engine's own update to {prev!r}: {res2.errors()[-3:]}", case=case)
+                break
+            new2 = res2.record_value("New Version: ")
+            gt_oracle(ctx, p, prev, new2, case)
+            got = harness.snapshot(dpath)["a.txt"].decode().split("\n")
+            if got[:3] != ["intro text", f'__version__ = "{new2}"', "middle"]:
+                ctx.violation("other:legacy_rewrite_wrong", f"follow-up {p!r}: a.txt lines {got[:3]}", case=case)
+                break
+            if has_pep:
+                x = got[3][len("pip install pkg=="):-2]
+                try:
+                    if Version(x) != Version(new2):
+                        ctx.violation("other:legacy_pep440_occurrence_differs", f"follow-up {p!r}: wrote {x!r} for {new2!r}", case=case)
+                except InvalidVersion:
+                    ctx.violation("other:legacy_pep440_occurrence_invalid", f"follow-up {p!r}: wrote {x!r} for {new2!r}", case=case)
+            prev = new2
     finally:
         harness.rm_dir(dpath)
 
